@@ -76,9 +76,11 @@ fn change() -> impl Strategy<Value = Change> {
 }
 
 pub fn twin_strategy() -> impl Strategy<Value = Twin> {
-    scenario_quiet(Fam::Any).prop_flat_map(|scn| {
-        let v4 = scn.net.is_v4();
-        (Just(scn), req(v4), change()).prop_map(|(scn, req, change)| Twin { scn, req, change })
+    // the inner strategies are built once (building them compiles regexes) and cloned per case
+    let (r4, r6, ch) = (req(true), req(false), change().boxed());
+    scenario_quiet(Fam::Any).prop_flat_map(move |scn| {
+        let r = if scn.net.is_v4() { r4.clone() } else { r6.clone() };
+        (Just(scn), r, ch.clone()).prop_map(|(scn, req, change)| Twin { scn, req, change })
     })
 }
 
@@ -346,20 +348,22 @@ pub struct Member {
 }
 
 fn member_strategy() -> impl Strategy<Value = Member> {
-    scenario_quiet(Fam::Any).prop_flat_map(|mut scn| {
+    let (r4, r6) = (req(true), req(false));
+    let target = prop_oneof![
+        2 => any::<u16>().prop_map(Target::InSelf),
+        3 => (any::<u16>(), any::<u8>()).prop_map(|(i, b)| Target::BitOff(i, b)),
+        2 => any::<[u8; 16]>().prop_map(Target::Random),
+        1 => any::<[u8; 3]>().prop_map(Target::Multicast),
+        2 => any::<u16>().prop_map(Target::OwnGroup),
+    ]
+    .boxed();
+    scenario_quiet(Fam::Any).prop_flat_map(move |mut scn| {
         // force a self-IP list
         if scn.cfg.self_ips.is_none() {
             scn.cfg.self_ips = Some(vec![scn.net.sip]);
         }
-        let v4 = scn.net.is_v4();
-        let target = prop_oneof![
-            2 => any::<u16>().prop_map(Target::InSelf),
-            3 => (any::<u16>(), any::<u8>()).prop_map(|(i, b)| Target::BitOff(i, b)),
-            2 => any::<[u8; 16]>().prop_map(Target::Random),
-            1 => any::<[u8; 3]>().prop_map(Target::Multicast),
-            2 => any::<u16>().prop_map(Target::OwnGroup),
-        ];
-        (Just(scn), req(v4), target, any::<bool>(), prop::bool::weighted(0.12)).prop_map(|(scn, req, target, ip_dst_too, single_family)| Member { scn, req, target, ip_dst_too, single_family })
+        let r = if scn.net.is_v4() { r4.clone() } else { r6.clone() };
+        (Just(scn), r, target.clone(), any::<bool>(), prop::bool::weighted(0.12)).prop_map(|(scn, req, target, ip_dst_too, single_family)| Member { scn, req, target, ip_dst_too, single_family })
     })
 }
 
@@ -485,9 +489,9 @@ impl Prop for C02 {
         "twin construction: an in-scope answerable frame g (all request kinds, both IP versions, generated configurations) and a twin b obtained by exactly one out-of-scope change — destination MAC outside Auth(MAC,S) (one bit off the own MAC, multicast MAC of a foreign address, RFC 1112 mapping from the wrong bits, 33:33:00:00:00:02, ff:ff:ff:ff:ff:fe, random), requester on the deny list (IPv4 and IPv6, incl. the ICMPv6 path), EtherType outside {ARP,IPv4,IPv6}, the same frame behind 1..3 VLAN tags (incl. VLAN id 0), IP protocol / next header outside the supported set; plus exhaustive sweeps of all 256 protocol numbers per IP version and of EtherTypes (quick: 2048 sampled incl. neighbours of the supported ones; thorough: all 65536) over three answered base frames; plus the positive clause: a self-IP list S is configured and requests are addressed (IP destination / ARP target / NS target) to members of S, one-bit neighbours, random and multicast addresses: every reply's source address, ARP sender address and NA target must be in S. Non-trivial = the in-scope twin was answered (twins) / a reply was produced (membership); distinct by hash of the out-of-scope frame + change kind."
     }
     fn run(&self, ctx: &mut RunCtx) {
-        let n = ctx.share(ctx.tier.n(1_000_000, 12_000_000));
+        let n = ctx.share(ctx.tier.n(3_000_000, 24_000_000));
         ctx.run_generated("twin", n, twin_strategy(), twin_check);
-        let m = ctx.share(ctx.tier.n(600_000, 8_000_000));
+        let m = ctx.share(ctx.tier.n(2_000_000, 16_000_000));
         ctx.run_generated("member", m, member_strategy(), member_check);
         // exhaustive protocol sweep: 2 IP versions x 3 base frames x 256 values
         let mut idx = 0u64;
